@@ -34,9 +34,9 @@ ASSUMPTIONS = ["a deletion is 'reported' when a WARNING record names the atom an
                "alternate atom names are the ones listed in AA.xml / NA.xml / PATCHES.xml",
                "'fully parameterised' = every atom of the residue received parameters"]
 MIN = {"quick": {"residues_checked": 1500, "atom_set_checks": 900, "input_heavy_atoms_traced": 12000,
-                 "remove_atom_events": 1500, "altloc_inputs": 15},
+                 "remove_atom_events": 1500, "altloc_inputs": 15, "ligand_runs": 8, "model_atoms_traced": 10000},
        "thorough": {"residues_checked": 60000, "atom_set_checks": 35000, "input_heavy_atoms_traced": 500000,
-                    "remove_atom_events": 60000, "altloc_inputs": 1000}}
+                    "remove_atom_events": 60000, "altloc_inputs": 1000, "ligand_runs": 600, "model_atoms_traced": 1000000}}
 BRANCHES_REQUIRED = {"quick": 25, "thorough": 30}
 
 EV = {"removed": [], "installed": False, "branches": Counter()}
